@@ -213,6 +213,10 @@ func (h *c04) judge(c wireCase) {
 			viol("C04/cap-read/"+ids, "a frame of announced length %d was refused only after %d bytes had been consumed", c.L, o.consumed)
 		}
 	}
+	if complete && o.consumed > 4+int(c.L) {
+		viol("C04/read-beyond-frame/"+ids, "protocol.Read (result %v / %v) consumed %d bytes of the stream; the frame ends after %d", o.msg, o.err, o.consumed, 4+int(c.L))
+		return
+	}
 	if o.err == nil {
 		if !complete {
 			viol("C04/truncated-accepted/"+ids, "a frame with only %d of %d announced bytes present decoded to %s", len(c.Body), c.L, msgString(o.msg))
